@@ -58,9 +58,18 @@ func genC06(r *mrand.Rand, idx int) c06Case {
 	fresh := func(kind string) string {
 		seq++
 		if kind == "Bcc" {
-			return fmt.Sprintf("bcc-%d-%d-%08x@hidden.example", idx, seq, r.Uint32())
+			a := fmt.Sprintf("bcc-%d-%d-%08x@hidden.example", idx, seq, r.Uint32())
+			if r.Intn(8) == 0 {
+				a = gen.Pick(r, []string{"hidden%d.", "50%off."}) + a
+			}
+			return a
 		}
-		return fmt.Sprintf("%s%d-%d@%s.example", strings.ToLower(kind), idx, seq, gen.Pick(r, []string{"one", "two", "three"}))
+		a := fmt.Sprintf("%s%d-%d@%s.example", strings.ToLower(kind), idx, seq, gen.Pick(r, []string{"one", "two", "three"}))
+		if r.Intn(8) == 0 {
+			// atext characters that mean something to printf-style formatting, to shells and to URL decoding
+			a = gen.Pick(r, []string{"50%off.", "user%host.", "a%d%i%s.", "x+tag=1&y.", "{tpl}$HOME~.", "o'neil!#*/?^_`|."}) + a
+		}
+		return a
 	}
 	// one in six addresses is one that is on the message already, in the same or another list (the same person in
 	// To and Bcc, twice in Cc, ...): the envelope has one RCPT per occurrence
